@@ -1,31 +1,35 @@
 #!/bin/bash
 # runs every kept seeded change (and the reverse-fix mutants) against the quick check of its property;
-# writes /verif/seeded/RESULTS.txt and updates each meta.json (caught_by)
+# writes /verif/$R and updates each meta.json (caught_by)
 cd /verif
-: > seeded/RESULTS.txt
+# with VERIF_SEED set the results go to seeded/RESULTS.seed<k>.txt and meta.json is left alone (robustness sweeps)
+R=seeded/RESULTS${VERIF_SEED:+.seed$VERIF_SEED}.txt
+export R
+: > $R
 for d in seeded/C*/; do
   id=$(basename $d); prop=${id%%-*}
   pf=/verif/$d/patch.diff
   [ -f /verif/$d/patch_current.diff ] && pf=/verif/$d/patch_current.diff   # ported onto the fix commits when the original no longer applies
   line=$(./drv/selftest.sh $pf $prop | head -1)
-  grep -q neutralised_by $d/meta.json || echo "$line" >> seeded/RESULTS.txt
+  grep -q neutralised_by $d/meta.json || echo "$line" >> $R
   python3 - "$d" "$line" <<'PY'
-import json,sys
+import json,sys,os
 d,line=sys.argv[1],sys.argv[2]
 m=json.load(open(d+'/meta.json'))
 caught=' CAUGHT ' in line
 if m.get('neutralised_by'):
     if not caught:
         line=line.replace('MISSED','SILENT-AS-EXPECTED (change neutralised by fix %s, see meta.json)'%m['neutralised_by']['commit'])
-    open('seeded/RESULTS.txt','a').write(line+'\n')
+    open(os.environ['R'],'a').write(line+'\n')
 sig=line.split(' CAUGHT ',1)[1].strip() if caught else ''
 m['caught_by']=dict(check=f"./run.sh {m['property']} quick", caught=caught, signatures=sig[:600], note='' if caught else line[:300])
-json.dump(m,open(d+'/meta.json','w'),indent=1)
+if not os.environ.get('VERIF_SEED'):
+    m2=json.load(open(d+'/meta.json')); m2['caught_by']=m['caught_by']; json.dump(m2,open(d+'/meta.json','w'),indent=1)
 PY
 done
 for p in mutants/*.diff; do
   prop=$(basename $p | sed -E 's/^unfix-[A-Z0-9]+-(C[0-9]+).*/\1/')
   line=$(./drv/selftest.sh /verif/$p $prop | head -1)
-  echo "$line" >> seeded/RESULTS.txt
+  echo "$line" >> $R
 done
-grep -c CAUGHT seeded/RESULTS.txt; grep -v 'CAUGHT\|SILENT-AS-EXPECTED' seeded/RESULTS.txt
+grep -c CAUGHT $R; grep -v 'CAUGHT\|SILENT-AS-EXPECTED' $R
